@@ -1,0 +1,30 @@
+//go:build verif
+
+// Contracts for package app, property C07: mempool checks are isolated from consensus execution.
+// The shared stores are singletons whose state pointer WithState re-aims; any CheckTx may have left them aimed at
+// the check state. `aimcheck e` asks that at every direct call of a store method inside the body the store's state
+// pointer equals e (the deliver state) — the entry heap is arbitrary, so the proof cannot depend on where a store
+// was left aimed by an earlier call.
+// Comment-only file, read by /verif/govc.
+
+package app
+
+//@ func (*App).blockBeginner$1
+//@   aimcheck app.Context.deliver                // C07.aim
+//@   requires app != nil
+
+//@ func (*App).blockEnder$1
+//@   aimcheck app.Context.deliver                // C07.aim
+//@   requires app != nil
+
+//@ func (*App).commitor$1
+//@   aimcheck app.Context.deliver                // C07.aim
+//@   requires app != nil
+
+//@ func (*App).applyUpdate
+//@   aimcheck app.Context.deliver                // C07.aim
+//@   requires app != nil
+
+//@ func ManageVotes
+//@   aimcheck ctx.deliver                        // C07.aim
+//@   requires ctx != nil
